@@ -56,12 +56,32 @@ def gen_case(rng, cid, solve=False):
              "f0": rnd(rng, 0.05, 1.0, 64), "f1": rnd(rng, 0, 0.5, 64), "f2": rnd(rng, 0, 0.002, 4096)}
     nvals = 1 + sum(len(p["weights"]) + 1 for p in panels)
     T = [rnd(rng, 450, 700) for _ in range(nvals)]
+    late = None
+    if rng.random() < 0.4:
+        ntube = rng.randint(1, 2)
+        nt, nz = rng.randint(1, 3), rng.randint(2, 4)
+        lp = {"weights": [float(rng.choice([1, 2, 3])) for _ in range(ntube)], "ri": rng.choice([8.0, 12.5]), "h": rng.choice([100.0, 2500.0]),
+              "nt": nt, "nz": nz,
+              "metal": [[[[rnd(rng, 600, 900) for _ in range(nz)] for _ in range(nt)] for _ in range(ntube)] for _ in times]}
+        late = {"panel": lp, "T": T + [rnd(rng, 450, 700) for _ in range(ntube + 1)]}
     t2 = rng.choice([x for x in times if x != t] + [times[-2] + (times[-1] - times[-2]) * rng.choice([0.125, 0.625])])
     return {"id": cid, "times": times, "mass_flow": mass, "inlet": inlet, "panels": panels, "fluid": fluid, "t": t, "t2": t2,
-            "T": T, "solve": solve}
+            "T": T, "solve": solve, "late": late}
+
+
+def impl_panel(p):
+    return {"weights": [hx(w) for w in p["weights"]], "ri": hx(p["ri"]), "h": hx(p["h"]),
+            "metal": [[[[hx(v) for v in row] for row in tube] for tube in tm] for tm in p["metal"]]}
 
 
 def to_impl(c):
+    d = _to_impl(c)
+    if c.get("late"):
+        d["late"] = {"panel": impl_panel(c["late"]["panel"]), "T": [hx(x) for x in c["late"]["T"]]}
+    return d
+
+
+def _to_impl(c):
     return {"id": c["id"], "times": [hx(x) for x in c["times"]], "mass_flow": [hx(x) for x in c["mass_flow"]],
             "inlet": [hx(x) for x in c["inlet"]], "t": hx(c["t"]), "t2": hx(c["t2"]), "T": [hx(x) for x in c["T"]], "solve": c["solve"],
             "fluid": {k: hx(v) for k, v in c["fluid"].items()},
@@ -140,6 +160,10 @@ def terms_for(c, r):
     if "R" in r:
         out.append(("residual", resid_term(c["T"], r["R"], TOL)))
         out.append(("recover", rec_term(c["T"], r["rec"])))
+    if "R_late" in r:
+        c3 = dict(c, panels=c["panels"] + [c["late"]["panel"]], T=c["late"]["T"])
+        for label, term in terms_for(c3, {"R": r["R_late"], "rec": r["rec_late"]}):
+            out.append((label + "-after-adding-a-panel", term))
     if "R2" in r:
         c2 = dict(c, t=c["t2"])
         for label, term in terms_for(c2, {"R": r["R2"], "rec": r["rec2"]}):
